@@ -17,6 +17,7 @@ std::string Op::text() const {
     }
     if (fail) s += strf(" fail=%llu", (unsigned long long)fail);
     if (reinj) s += strf(" reinj=%llu", (unsigned long long)reinj);
+    if (chain) s += " chain=1";
     return s;
 }
 
@@ -41,6 +42,7 @@ bool Op::parse(const std::string& line, Op& o) {
         else if (k == "data") o.data = unhex(v);
         else if (k == "fail") o.fail = strtoull(v.c_str(), nullptr, 10);
         else if (k == "reinj") o.reinj = strtoull(v.c_str(), nullptr, 10);
+        else if (k == "chain") o.chain = strtoull(v.c_str(), nullptr, 10);
         else if (k == "clock") {
             size_t p = 0;
             while (p <= v.size()) { size_t c = v.find(',', p); if (c == std::string::npos) c = v.size(); o.clock.push_back(strtoull(v.substr(p, c - p).c_str(), nullptr, 10)); p = c + 1; }
